@@ -1166,6 +1166,8 @@ func runChild(cases []Case, listf string, from int, resf, curf string, seed int6
 			}
 		} else if c.Mode == "reqid" {
 			res.Problems, res.Sig, res.Observed = runReqId(e, c)
+		} else if c.Mode == "auth" {
+			res.Problems, res.Sig, res.Observed = runAuth(e, c)
 		} else if c.Mode == "cursor" {
 			res.Problems, res.Sig, res.Observed = runCursor(e, c)
 		} else {
@@ -1392,4 +1394,91 @@ func runPair(e *env, c Case, seed int64) (problems, sigs []string, observed stri
 		}
 	}
 	return
+}
+
+// runAuth: the http front end with basic auth configured. A request with wrong or missing credentials is refused
+// once (401, at most one document in the body) and never reaches the kernel; with the right credentials it reaches
+// the kernel exactly once and its reply is the kernel's.
+func runAuth(e *env, c Case) (problems, sigs []string, observed string) {
+	addr := freeAddr()
+	hs, err := httpsub.New(e.stub, &httpsub.Config{Addr: addr, Timeout: time.Second, TaskFrequency: time.Minute, Auth: map[string]string{"user": "secret"}})
+	if err != nil {
+		panic(err)
+	}
+	errs := make(chan error, 1)
+	go hs.Start(errs)
+	defer hs.Stop()
+	for i := 0; i < 200; i++ {
+		if cn, err := net.Dial("tcp", addr); err == nil {
+			cn.Close()
+			break
+		}
+		time.Sleep(10 * time.Millisecond)
+	}
+	try := func(user, pw string, creds bool) (int, []byte, int) {
+		e.stub.mu.Lock()
+		e.stub.captured = nil
+		e.stub.script = scripted("CreatePromise", 20100, "response", "full")
+		e.stub.mu.Unlock()
+		req, _ := nethttp.NewRequest("POST", "http://"+addr+"/promises", strings.NewReader(`{"id":"auth-p","timeout":1700000000000}`))
+		req.Header.Set("Content-Type", "application/json")
+		if creds {
+			req.SetBasicAuth(user, pw)
+		}
+		rs, err := e.hc.Do(req)
+		if err != nil {
+			return -1, nil, 0
+		}
+		b, _ := io.ReadAll(rs.Body)
+		rs.Body.Close()
+		e.stub.mu.Lock()
+		n := len(e.stub.captured)
+		e.stub.mu.Unlock()
+		return rs.StatusCode, b, n
+	}
+	docs := func(b []byte) int {
+		dec := json.NewDecoder(bytes.NewReader(b))
+		n := 0
+		for {
+			var v any
+			if err := dec.Decode(&v); err != nil {
+				break
+			}
+			n++
+		}
+		return n
+	}
+	for _, tc := range []struct {
+		name, user, pw string
+		creds          bool
+	}{{"wrong password", "user", "nope", true}, {"unknown user", "mallory", "secret", true}, {"no credentials", "", "", false}} {
+		st, body, n := try(tc.user, tc.pw, tc.creds)
+		observed += fmt.Sprintf("%s: %d, %d kernel requests; ", tc.name, st, n)
+		if st != 401 {
+			problems = append(problems, fmt.Sprintf("%s: answered %d, expected 401", tc.name, st))
+			sigs = append(sigs, "auth:status")
+		}
+		if n != 0 {
+			problems = append(problems, fmt.Sprintf("%s: the refused request (answered %d) was handed to the kernel %d time(s)", tc.name, st, n))
+			sigs = append(sigs, "auth:refused-request-executed")
+		}
+		if d := docs(body); d > 1 {
+			problems = append(problems, fmt.Sprintf("%s: the reply body holds %d JSON documents (%s): answered twice", tc.name, d, clipB(body)))
+			sigs = append(sigs, "auth:two-responses")
+		}
+	}
+	st, _, n := try("user", "secret", true)
+	observed += fmt.Sprintf("right credentials: %d, %d kernel requests", st, n)
+	if st != 201 || n != 1 {
+		problems = append(problems, fmt.Sprintf("right credentials: answered %d after %d kernel request(s), expected 201 after one", st, n))
+		sigs = append(sigs, "auth:authorized-request")
+	}
+	return
+}
+
+func clipB(b []byte) string {
+	if len(b) > 200 {
+		return string(b[:200]) + "..."
+	}
+	return string(b)
 }
